@@ -4,7 +4,10 @@ Every fit / partial_fit / add_arm event is recorded; at each query the recorded 
 mon.oracles.ridge (numpy.linalg.solve on the raw normal equations) and predict_expectations is compared per
 (row, arm): x.beta (LinGreedy eps=0), x.beta + alpha sqrt(x' A^-1 x) (LinUCB), and for LinTS a draw that must
 lie within 6 sigma = 6 alpha sqrt(x' A^-1 x) of x.beta for alpha in {1e-9, 1e-6, 1e-3, 0.5} (so it is centred
-on x.beta and converges to it as alpha -> 0)."""
+on x.beta and converges to it as alpha -> 0).
+
+As built: Workload extras: arms whose first rows arrive late through single-row partial_fit, a few single batches of 140000-200000 rows (90% on one arm, scale=True in half of them).
+"""
 from mon import env  # noqa: F401
 import math
 
